@@ -66,6 +66,8 @@ def parse(trace):
         elif w[0] == 'FRAME':
             cur = Frame(int(w[1]), idx)
             idx += 1
+        elif w[0] == 'MARK':
+            events.append(('mark', w[1:]))
         elif w[0] == 'QUIESCENT':
             events.append(('quiescent',))
         elif w[0] == 'NOTQUIESCENT':
